@@ -82,6 +82,7 @@ struct work_pool_thread {
 #define MAXWK 64
 #define MAXDEAD 64
 
+static uint32_t seq0;	/* cfg seq0=N: value the submission counters of every new pool start from */
 struct pool_obj { int exists, owner, max, hooks, cur, gens, submitting; struct iv_work_pool pool; };
 struct pool_inst { int used, obj, gen, alive, owner; struct work_pool_priv *priv; void (*h_ev)(void *); void (*h_tn)(void *); char name[24]; };
 struct work_obj { int exists, state, inst, submitter, runs, dones; struct iv_work_item item; };	/* state 0 free, 1 in flight */
@@ -418,6 +419,7 @@ static void thr_body(void *arg)
 static int w_cfg(const char *tok)
 {
 	if (!strncmp(tok, "failcreate=", 11)) { fail_create_at = atoi(tok + 11); return 1; }
+	if (!strncmp(tok, "seq0=", 5)) { seq0 = (uint32_t)strtoull(tok + 5, NULL, 10); return 1; }
 	return 0;
 }
 
@@ -479,6 +481,11 @@ static int w_action(char *op, int guard, char *a1, char *a2, char *rest)
 		r = iv_work_pool_create(&P[i].pool);
 		creating_pool = -1;
 		if (r == 0) P[i].cur = n;
+		if (r == 0 && seq0 != 0) {
+			/* a pool that has already seen seq0 submissions (cfg seq0=N): its submission counters are about to pass 2^16 / 2^32 */
+			struct work_pool_priv *pp = P[i].pool.priv;
+			pp->seq_head = pp->seq_tail = seq0;
+		}
 		mt_log("RET %d\n", r);
 		return 1;
 	}
@@ -579,7 +586,7 @@ static void w_before_unlock(const void *m)
 		return;
 	p = pi->priv;
 	printf("T%d SNAP poolmu:%s started=%d max=%d shut=%d head=%u tail=%u queued=", mt_me(), pi->name,
-	       p->started_threads, p->max_threads, p->shutting_down, p->seq_head, p->seq_tail);
+	       p->started_threads, p->max_threads, p->shutting_down, (uint32_t)(p->seq_head - seq0), (uint32_t)(p->seq_tail - seq0));
 	first = 1;
 	iv_list_for_each (ilh, &p->work_items) { printf("%sx%d", first ? "" : ",", item_index(ilh)); first = 0; }
 	printf(" done=");
